@@ -506,6 +506,40 @@ class Sim:
                 units = [tuple(int(k == a) for k in range(inp.npert)) for a in range(inp.npert)]
                 self.H = [full[inp.zero_o]] + [full[u] for u in units]
             self.h_is_series = False
+        elif fmt == "nested":
+            # {order: [[block_ij]]}: the Hamiltonian terms are given as nested lists of blocks
+            def blk(M, i, j):
+                sub = M[int(inp.offs[i]):int(inp.offs[i + 1]), int(inp.offs[j]):int(inp.offs[j + 1])]
+                return sub
+
+            self.H = {o: [[blk(M, i, j) for j in range(inp.nb)] for i in range(inp.nb)] for o, M in inp.full.items()}
+            self.h_is_series = False
+        elif fmt == "symkeys":
+            # {monomial: matrix} with symbolic keys; symbols are ordered by name, so x0 < x1 < x2 keeps the order of axes
+            import sympy
+
+            xs = sympy.symbols(f"x0:{inp.npert}")
+            self.H = {}
+            for o, M in inp.full.items():
+                key = sympy.Integer(1)
+                for x, p_ in zip(xs, o):
+                    key = key * x**p_
+                self.H[key] = M
+            self.h_is_series = False
+        elif fmt == "sympy_expr":
+            # one sympy matrix polynomial in the perturbative symbols (Taylor-expanded lazily by the library)
+            import sympy
+
+            xs = sympy.symbols(f"x0:{inp.npert}")
+            expr = sympy.zeros(inp.N, inp.N)
+            for o, M in inp.full.items():
+                mono = sympy.Integer(1)
+                for x, p_ in zip(xs, o):
+                    mono = mono * x**p_
+                expr = expr + mono * M
+            self.H = expr
+            self.kw["symbols"] = list(xs)
+            self.h_is_series = False
         else:
             raise ValueError(fmt)
         if world.get("symbols") and self.h_is_series:
@@ -513,11 +547,11 @@ class Sim:
 
             self.kw["symbols"] = list(sympy.symbols(f"lam0:{inp.npert}"))
         self.container = None
-        if not self.h_is_series:
+        if not self.h_is_series and isinstance(self.H, (dict, list)):
             self.container = [(k, id(v)) for k, v in (self.H.items() if isinstance(self.H, dict) else enumerate(self.H))]
         if fmt in ("scalar_vecs", "implicit"):
             self.kw["subspace_eigenvectors"] = inp.vecs
-        elif fmt != "blocked":
+        elif fmt not in ("blocked", "nested"):
             self.kw["subspace_indices"] = inp.idx
         self.user_series = [self.H] if self.h_is_series else []
 
@@ -1316,8 +1350,10 @@ class GraphProp:
             npert = min(npert, 2)
         sizes = [r.choice([1, 1, 2, 2, 3] if domain != "sym" else [1, 1, 2]) for _ in range(nb)]
         herm = r.random() < 0.65
-        fmt = r.choice(profile.get("fmts", ["blocked"] * 5 + ["scalar_idx"] * 2 + ["scalar_vecs", "dict", "list"]))
-        if domain in ("sym", "tracer", "sq"):
+        fmt = r.choice(profile.get("fmts", ["blocked"] * 10 + ["scalar_idx"] * 4 + ["scalar_vecs", "scalar_vecs", "dict", "dict", "list", "list", "nested", "nested", "symkeys"]))
+        if domain == "sym":
+            fmt = r.choice(["blocked", "blocked", "blocked", "sympy_expr", "symkeys"]) if "fmts" not in profile else "blocked"
+        if domain in ("tracer", "sq"):
             fmt = "blocked"
         if domain == "sparse" and fmt == "scalar_vecs":
             fmt = "scalar_idx"
@@ -1330,6 +1366,12 @@ class GraphProp:
         cand = [o for o in itertools.product(range(box + 1), repeat=npert) if 0 < sum(o) <= 3]
         if fmt == "list":
             terms = [tuple(int(k == a) for k in range(npert)) for a in range(npert)]
+        elif fmt in ("symkeys", "sympy_expr"):
+            # every perturbative symbol has to occur
+            terms = [tuple(int(k == a) for k in range(npert)) for a in range(npert)]
+            for o in r.sample(cand, min(len(cand), r.randint(0, 2))):
+                if o not in terms:
+                    terms.append(o)
         else:
             units = [o for o in cand if sum(o) == 1]
             terms = [r.choice(units)]
@@ -1373,6 +1415,14 @@ class GraphProp:
                          "solver": "default", "chain": 0, "d0_herm": False}
             if domain == "sparse":
                 comps[-1]["fd"] = None
+        if fmt == "sympy_expr":
+            w["p_zero_block"] = 0.0  # a vanishing term would remove its symbol from the expression
+        if domain == "sym" and fmt != "blocked":
+            for spec in comps:
+                spec["fd"] = None  # symbolic input + subspace_indices + fully_diagonalize crashes in input handling (C14 matter)
+                spec["solver"] = "default"
+                spec.pop("chain", None)
+            w.pop("illposed", None)
         if domain == "sq":
             w["cap"] = 2
             w["sizes"] = [1, 1]
